@@ -72,3 +72,36 @@ Definition spgood_failing : sprogram :=
   {| sp_prog := pgood;
      sp_shadows := [ {| sh_fn := 2; sh_body := SAssert (eqz (ECall 2 [ENum 3]) 13); sh_skip := false |};
                      {| sh_fn := 4; sh_body := SFor 10 (ENum 0) (ENum 2) (SAssert (eqz (ECall 4 [ENum 3]) 26)); sh_skip := false |} ] |}.
+
+(* ---- arrays ----
+   fn f2(v3: int) -> int { (println v3)  return v3 }
+   fn f4(v5: array<int>, v6: int) -> int { return (+ (at v5 v6) (array_length v5)) } *)
+Definition parr : program :=
+  {| pglobals := [(1, TArr, EArr [ENum 4; ENum 5])];
+     pfns := [ {| fname := 2; fparams := [(3, TInt)]; fret := TInt; fbody := SSeq (SPrint true (EVar 3)) (SReturn (Some (EVar 3))) |};
+               {| fname := 4; fparams := [(5, TArr); (6, TInt)]; fret := TInt;
+                  fbody := SReturn (Some (EBin BAdd (EAt (EVar 5) (EVar 6)) (ELen (EVar 5)))) |};
+               {| fname := 0; fparams := []; fret := TInt; fbody := SReturn (Some (ENum 0)) |} ];
+     pmain := 0 |}.
+(* inside names_apart: the first element of every literal is call-free; (f4 [7, (f2 8), 9] 1) = 8 + 3, (f4 v1 0) = 4 + 2 *)
+Definition sparr_good : sprogram :=
+  {| sp_prog := parr;
+     sp_shadows := [ {| sh_fn := 4;
+                        sh_body := SSeq (SLet false 7 TArr (EArr [ENum 7; ECall 2 [ENum 8]; ENum 9]))
+                                  (SSeq (SPrint true (EVar 7))
+                                  (SSeq (SAssert (eqz (ECall 4 [EVar 7; ENum 1]) 11))
+                                        (SAssert (eqz (ECall 4 [EVar 1; ENum 0]) 6))));
+                        sh_skip := false |} ] |}.
+(* outside: the FIRST element is a call that prints; the evaluator evaluates it twice ("8" is printed twice) *)
+Definition sparr_twice : sprogram :=
+  {| sp_prog := parr;
+     sp_shadows := [ {| sh_fn := 4;
+                        sh_body := SSeq (SLet false 7 TArr (EArr [ECall 2 [ENum 8]; ENum 9]))
+                                        (SAssert (eqz (ECall 4 [EVar 7; ENum 0]) 10));
+                        sh_skip := false |} ] |}.
+(* an index out of range inside a shadow test: nanoc itself ends there with exit status 1 *)
+Definition sparr_oob : sprogram :=
+  {| sp_prog := parr;
+     sp_shadows := [ {| sh_fn := 4;
+                        sh_body := SSeq (SPrint true (ENum 1)) (SAssert (eqz (ECall 4 [EVar 1; ENum 2]) 0));
+                        sh_skip := false |} ] |}.
